@@ -1,4 +1,5 @@
 import XV.Model.Acl
+import XV.Model.AclTree
 import XV.Drv.Util
 /-! line-protocol driver of the `acl` engine (op format: see go/cmd/acl/main.go) -/
 namespace XV.Drv.Acl
@@ -64,6 +65,20 @@ def parseURIs (s : String) : Option (List URI) := (words s).mapM parseURI
 
 def ar (b : Bool) : String := if b then "accept" else "reject"
 
+/-- every case is evaluated with the trie model (the one the theorems are about) and with the literal tree
+model (array of nodes, FindChild, BFS list, backwards traversal); they must agree -/
+def accBoth (env : Env) (root : Name) (us : List URI) : Option Bool :=
+  let a := identifyAccount env root us
+  if a == Tree.identifyAccountT env root us then some a else none
+
+def methBoth (env : Env) (rule : Option Rule) (us : List URI) : Option Bool :=
+  let a := checkMethodPerm env rule us
+  if a == Tree.checkMethodPermT env rule us then some a else none
+
+def arO : Option Bool → String
+  | some b => ar b
+  | none => "model-split"
+
 /-- all multisets of size ≤ k over the alphabet, in the canonical order of the harness
 (a multiset first, then its extensions by elements of non-decreasing index) -/
 partial def multisets {α : Type} (k : Nat) (alphabet : List α) (cur : List α) : List (List α) :=
@@ -75,8 +90,12 @@ partial def multisets {α : Type} (k : Nat) (alphabet : List α) (cur : List α)
       | x :: xs => multisets k (x :: xs) (x :: cur) ++ ext xs
     cur.reverse :: ext alphabet
 
-def bits (f : List URI → Bool) (k : Nat) (alphabet : List URI) : String :=
-  String.ofList ((multisets k alphabet []).map (fun ms => if f ms then '1' else '0'))
+def bits (f : List URI → Option Bool) (k : Nat) (alphabet : List URI) : String :=
+  String.ofList ((multisets k alphabet []).map (fun ms =>
+    match f ms with
+    | some true => '1'
+    | some false => '0'
+    | none => 'X'))
 
 def parseOwner (s : String) : Option (Nat × Name) :=
   match s.splitOn "=" with
@@ -104,21 +123,21 @@ def step (_ : Unit) (line : String) : Unit × String :=
   match line.splitOn "|" with
   | ["ida", root, env, us] =>
     match parseName root, parseEnv env, parseURIs us with
-    | some root, some env, some us => ((), ar (identifyAccount env root us))
+    | some root, some env, some us => ((), arO (accBoth env root us))
     | _, _, _ => ((), "bad-op")
   | ["idx", root, env, us, k] =>
     match parseName root, parseEnv env, parseURIs us, k.toNat? with
     | some root, some env, some us, some k =>
-      if k > 6 then ((), "bad-op") else ((), bits (identifyAccount env root) k us)
+      if k > 6 then ((), "bad-op") else ((), bits (accBoth env root) k us)
     | _, _, _, _ => ((), "bad-op")
   | ["cmp", rule, env, us] =>
     match parseRule rule, parseEnv env, parseURIs us with
-    | some rule, some env, some us => ((), ar (checkMethodPerm env rule us))
+    | some rule, some env, some us => ((), arO (methBoth env rule us))
     | _, _, _ => ((), "bad-op")
   | ["cmx", rule, env, us, k] =>
     match parseRule rule, parseEnv env, parseURIs us, k.toNat? with
     | some rule, some env, some us, some k =>
-      if k > 6 then ((), "bad-op") else ((), bits (checkMethodPerm env rule) k us)
+      if k > 6 then ((), "bad-op") else ((), bits (methBoth env rule) k us)
     | _, _, _, _ => ((), "bad-op")
   | ["rw", env, owners, us, ver, ws] =>
     match parseEnv env, (words owners).mapM parseOwner, parseURIs us, (words ver).mapM parseName,
